@@ -500,6 +500,16 @@ impl Driver for AddedLocals {
                 v.push(VT::Func);
                 v.push(VT::Extern);
             }
+            // nullable abstract reference types (a local must be defaultable)
+            if gm.features_used.contains(&"gc") {
+                for k in 2..10 {
+                    v.push(VT::Abs(k, true));
+                }
+                if gm.features_used.contains(&"exn") {
+                    v.push(VT::Abs(10, true));
+                    v.push(VT::Abs(11, true));
+                }
+            }
             v
         };
         let n_add = c.t.range(1, 10);
